@@ -166,3 +166,5 @@ for _p in ("C03",):
 for _p in ("C02", "C03"):
     PROPS[_p]["modules"].append("contracts.l02_server_transfers")
     PROPS[_p]["contracts"] += ["ServerUploadTheorem", "ServerDownloadTheorem"]
+PROPS["C13"]["modules"].append("contracts.l13_blockupload")
+PROPS["C13"]["contracts"].append("BlockUploadTheorem")
